@@ -9,6 +9,7 @@ use debug::debug;
 use hir::common::{ComptimeLoc, ComptimeResult, ComptimeResultMap, Ty};
 use hir_ty::LocationResolver;
 use interner::Interner;
+use internment::Intern;
 use itertools::Itertools;
 use num_traits::ToBytes;
 use rustc_hash::{FxHashMap, FxHashSet};
@@ -28,6 +29,82 @@ use crate::{
 };
 
 use super::Compiler;
+
+/// Zeroes every byte of `bytes` (a value of type `ty`) that isn't a part of the value itself:
+/// the gaps between struct members and array items, and whatever comes after the payload of a
+/// tagged union. These bytes are never written, so they contain whatever was on the stack.
+fn zero_padding(ty: Intern<Ty>, bytes: &mut [u8]) {
+    fn zero_between(bytes: &mut [u8], from: usize, to: usize) {
+        let to = to.min(bytes.len());
+        if from < to {
+            bytes[from..to].fill(0);
+        }
+    }
+
+    fn zero_inner(ty: Intern<Ty>, bytes: &mut [u8], offset: usize) {
+        let end = (offset + ty.size() as usize).min(bytes.len());
+        if offset < end {
+            zero_padding(ty, &mut bytes[offset..end]);
+        }
+    }
+
+    match &*ty {
+        Ty::Distinct { sub_ty, .. } | Ty::EnumVariant { sub_ty, .. } => zero_padding(*sub_ty, bytes),
+        Ty::AnonStruct { members } | Ty::ConcreteStruct { members, .. } => {
+            let Some(layout) = ty.struct_layout() else {
+                return;
+            };
+
+            let mut written_up_to = 0;
+            for (member, offset) in members.iter().zip(layout.offsets()) {
+                let offset = *offset as usize;
+                zero_between(bytes, written_up_to, offset);
+                zero_inner(member.ty, bytes, offset);
+                written_up_to = offset + member.ty.size() as usize;
+            }
+            zero_between(bytes, written_up_to, ty.size() as usize);
+        }
+        Ty::AnonArray { size, sub_ty } | Ty::ConcreteArray { size, sub_ty } => {
+            let (item_size, item_stride) = (sub_ty.size() as usize, sub_ty.stride() as usize);
+
+            for idx in 0..*size as usize {
+                zero_inner(*sub_ty, bytes, idx * item_stride);
+                zero_between(bytes, idx * item_stride + item_size, (idx + 1) * item_stride);
+            }
+        }
+        Ty::Enum { .. } | Ty::Optional { .. } | Ty::ErrorUnion { .. } if ty.is_tagged_union() => {
+            let Some(layout) = ty.enum_layout() else {
+                return;
+            };
+            let discrim_offset = layout.discriminant_offset() as usize;
+            let Some(discrim) = bytes.get(discrim_offset).copied() else {
+                return;
+            };
+
+            let payload_ty = match &*ty {
+                Ty::Enum { variants, .. } => variants.iter().copied().find(|variant| {
+                    matches!(variant.as_ref(), Ty::EnumVariant { discriminant, .. } if *discriminant == discrim as u64)
+                }),
+                Ty::Optional { sub_ty } => (discrim == 1).then_some(*sub_ty),
+                Ty::ErrorUnion {
+                    error_ty,
+                    payload_ty,
+                } => Some(if discrim == 0 { *error_ty } else { *payload_ty }),
+                _ => unreachable!(),
+            };
+
+            let payload_size = match payload_ty {
+                Some(payload_ty) => {
+                    zero_inner(payload_ty, bytes, 0);
+                    payload_ty.size() as usize
+                }
+                None => 0,
+            };
+            zero_between(bytes, payload_size, discrim_offset);
+        }
+        _ => {}
+    }
+}
 
 pub(crate) trait ComptimeBytes {
     fn into_bytes(
@@ -295,19 +372,25 @@ pub fn eval_comptime_blocks<'a>(
                 let layout =
                     Layout::from_size_align(return_ty.size() as usize, return_ty.align() as usize)
                         .expect("Invalid layout");
-                let raw = unsafe { std::alloc::alloc(layout) };
+                // zeroed, because the bytes between the members of an aggregate are never written,
+                // and all of the bytes end up in the object file
+                let raw = unsafe { std::alloc::alloc_zeroed(layout) };
 
                 let comptime =
                     unsafe { mem::transmute::<*const u8, fn(*mut u8) -> *mut u8>(code_ptr) };
 
                 comptime(raw);
 
-                let bytes = unsafe {
+                let mut bytes = unsafe {
                     let slice = std::ptr::slice_from_raw_parts(raw, return_ty.size() as usize)
                         as *mut [u8];
 
                     Box::from_raw(slice)
                 };
+
+                // the bytes end up in the object file,
+                // and the object file should only depend on the source code
+                zero_padding(return_ty, &mut bytes);
 
                 results.insert(ctc, ComptimeResult::Data(bytes));
             }
